@@ -5,8 +5,15 @@ UNSET = -9
 ALIEN = -99
 
 
+_flip = [0]
+
+
 def to_py(item):
-    return {k: (None if v == -1 else v) for k, v in item.items()}
+    """Abstract item -> dict.  Every other dict is built with its keys inserted in the opposite order: two dicts are
+    the same item whatever the order their keys were inserted in."""
+    d = {k: (None if v == -1 else v) for k, v in item.items()}
+    _flip[0] += 1
+    return dict(reversed(list(d.items()))) if _flip[0] % 2 else d
 
 
 def to_abs(d):
@@ -31,7 +38,12 @@ def pred(p):
     if f == "b_value":
         # not a bool: None / 0 are false, other numbers true (a value held in a container - C17's nested
         # concretisation - is looked up inside it)
-        return lambda x: (x.get("b")["n"][0] if isinstance(x.get("b"), dict) else x.get("b"))
+        def value(x):
+            v = x.get("b")
+            if isinstance(v, tuple) and len(v) == 1:
+                v = v[0]
+            return v["n"][0] if isinstance(v, dict) else v
+        return value
     if f == "true":
         return lambda x: True
     return lambda x: False
